@@ -893,7 +893,25 @@ def parse_as_ast(
 
     else:
         assert isinstance(ast_source, ast.AST)
+        # An AST handed in by the user stays the user's: the passes that follow edit the lambda
+        # in place, so they work on a copy (a stream built earlier from the same object keeps
+        # its query). A nested lambda of the query being built is edited where it stands.
+        if not getattr(ast_source, "_followed_in_place", False):
+            ast_source = _copy_ast_nodes(ast_source)
         return lambda_unwrap(ast_source)
+
+
+def _copy_ast_nodes(node: Any) -> Any:
+    """New node and list objects all the way down. Anything else hung on a node (an executor, a
+    dataset object, query metadata) is carried over by reference."""
+    if isinstance(node, ast.AST):
+        new_node = copy.copy(node)
+        for field, value in ast.iter_fields(node):
+            setattr(new_node, field, _copy_ast_nodes(value))
+        return new_node
+    if isinstance(node, list):
+        return [_copy_ast_nodes(n) for n in node]
+    return node
 
 
 def scan_for_metadata(a: ast.AST, callback: Callable[[ast.arg], None]):
